@@ -234,3 +234,59 @@ Proof.
   split; [exact (proj1 (proj1 z_max_ok))|]. split; [exact (proj1 (proj1 z_min_ok))|].
   split; vm_compute; reflexivity.
 Qed.
+
+(** * z.show — on the domain of the judge's documented text (C09.judge_show 3: whole-minute offset,
+      leap fraction only on second 59), Display (form 0) and Debug (form 1) *)
+From V Require Judge.C09 Model.Show Proofs.C04Show.
+Theorem holds_show a form : dtz_ok a -> dz_off a mod 60 = 0 ->
+  (frac (dz_utc a) < 1000000000 \/ Time.tsecs (nd_time (dz_utc a)) mod 60 = 59) -> form = 0 \/ form = 1 ->
+  J.judge B"z.show" [enc_dtz a; VInt form] (run B"z.show" [enc_dtz a; VInt form]) = JOk.
+Proof.
+  intros Ha Hm Hl Hform.
+  change (run B"z.show" [enc_dtz a; VInt form]) with
+    (match dec_dtz (enc_dtz a) with
+     | Some x =>
+         if form =? 0 then val_of_R VStr (Show.to_text (Show.dtz_display false [] x))
+         else if form =? 1 then val_of_R VStr (Show.to_text (Show.dtz_debug false [] x))
+         else VBad
+     | None => VBad end).
+  rewrite (dec_dtz_enc a Ha).
+  destruct (C04Show.show_wallclock a false Ha) as [S0 S1]. cbv zeta in S0, S1.
+  rewrite (C04Show.zone_text_whole_minute _ Hm) in S0, S1.
+  match goal with |- J.judge _ _ ?out = _ =>
+    change (J.judge B"z.show" [enc_dtz a; VInt form] out) with (Judge.C09.judge_show 3 form (enc_dtz a) out) end.
+  unfold Judge.C09.judge_show.
+  assert (Hspec : Judge.C09.spec_text 3 form (enc_dtz a) =
+    Judge.C09.InDom (Judge.C09.date_text (fst (yo_of_dn (wall a / 86400))) (snd (yo_of_dn (wall a / 86400))) ++
+      (if form =? 1 then B"T" else B" ") ++ Judge.C09.time_text (wall a mod 86400) (frac (dz_utc a)) ++
+      (if form =? 1 then [] else B" ") ++ Judge.C09.offset_text (dz_off a))).
+  { destruct Ha as [[Hd [Hs Hf]] Ho]. destruct (nominal_fields _ Hd) as [Hy [Hv _]].
+    unfold Judge.C09.spec_text, enc_dtz.
+    replace (negb ((form =? 0) || (form =? 1))) with false by lia.
+    change (3 =? 0) with false. change (3 =? 1) with false. change (3 =? 2) with false. change (3 =? 3) with true.
+    cbn [orb andb]. cbv iota beta.
+    unfold Judge.C09.valid_date, Judge.C09.valid_time, Judge.C09.valid_offset, Judge.C09.time_in_domain.
+    rewrite Hy, Hv. unfold off_ok in Ho. unfold frac in Hl.
+    replace ((0 <=? Time.tsecs (nd_time (dz_utc a))) && (Time.tsecs (nd_time (dz_utc a)) <? 86400) &&
+             (0 <=? Time.tfrac (nd_time (dz_utc a))) && (Time.tfrac (nd_time (dz_utc a)) <? 2000000000)) with true by lia.
+    replace ((-86400 <? dz_off a) && (dz_off a <? 86400)) with true by lia.
+    replace ((Time.tfrac (nd_time (dz_utc a)) <? 1000000000) || (Time.tsecs (nd_time (dz_utc a)) mod 60 =? 59)) with true by lia.
+    replace (dz_off a mod 60 =? 0) with true by lia.
+    cbn [andb]. unfold Judge.C09.wall.
+    change (dn_of_yo (Date.d_year (nd_date (dz_utc a))) (Date.d_ordinal (nd_date (dz_utc a))) * 86400 +
+            Time.tsecs (nd_time (dz_utc a)) + dz_off a) with (wall a).
+    destruct (yo_of_dn (wall a / 86400)) as [ly lo]. reflexivity. }
+  rewrite Hspec.
+  destruct Hform as [-> | ->]; cbn [Z.eqb Pos.eqb].
+  - rewrite S0. cbn [val_of_R]. apply jrefl.
+  - rewrite S1. cbn [val_of_R app]. apply jrefl.
+Qed.
+
+Lemma show_inhabited :
+  dtz_ok z_max_p2h /\ dz_off z_max_p2h mod 60 = 0 /\ frac (dz_utc z_max_p2h) < 1000000000 /\
+  in_rng (wall z_max_p2h) = false /\
+  Show.to_text (Show.dtz_display false [] z_max_p2h) = Val (B"+262143-01-01 01:59:59.999999999 +02:00").
+Proof.
+  split; [exact (proj1 z_max_ok)|]. split; [reflexivity|]. split; [vm_compute; reflexivity|].
+  split; [exact (proj2 z_max_ok)|]. vm_compute. reflexivity.
+Qed.
